@@ -1,7 +1,7 @@
 (* C05 - Load balancers return only current, healthy members of the cluster.  Only statements; proofs by `exact`. *)
 From Coq Require Import List ZArith NArith Bool.
-From MV Require Import Lib.Interleave Gen.LBTokens Model.LB Model.LBSnapshot Model.Edf Model.WRR
-  Proofs.LB Proofs.LBSnapshot Proofs.WRR.
+From MV Require Import Lib.Interleave Gen.LBTokens Gen.RRTokens Model.LB Model.LBSnapshot Model.Edf Model.WRR Model.RRConc
+  Proofs.LB Proofs.LBSnapshot Proofs.WRR Proofs.RRConc.
 Import ListNotations.
 Open Scope Z_scope.
 
@@ -114,6 +114,52 @@ Example c05_wrr_window_example :
   (exists s1, edf_run (edf_of_weights [1; 2; 4]) (concat calls) = Some s1) /\
   calls_ok hs calls = true /\ hit_positions hs calls = [1; 0; 1; 1; 0; 1; 1]%nat.
 Proof. cbn zeta. split; [eexists; vm_compute; reflexivity|split; vm_compute; reflexivity]. Qed.
+
+(* Round robin under CONCURRENT lookups (Model/RRConc.v): a lookup is a thread of micro-steps (one per
+   atomic.AddUint32 and one per Health() read), any number of lookups share the uint32 cursor (wrap-around in the
+   model), together with health flips of single hosts and foreign cursor increments, under EVERY schedule.
+   `rr_second_pass` is the index expression of the second (issue 1663) pass READ FROM loadbalancer.go. *)
+Theorem c05_rr_translator_ok : RRTokens_translator_ok = true.
+Proof. exact (eq_refl true). Qed.
+
+Theorem c05_rr_concurrent_member : forall sched ts cur hl, forallb rinitial ts = true ->
+  Forall (fun t => match t with RLook (RDone (Some idx)) _ => (idx < length hl)%nat | _ => True end)
+         (fst (rrun rr_second_pass sched ts cur hl)).
+Proof. exact (rr_member rr_second_pass). Qed.
+Print Assumptions c05_rr_concurrent_member.
+
+(* if some host is healthy and no flip touches it (healthy throughout every lookup), no lookup returns nil.
+   Type-checks only for the reduced start index: the second pass then walks `total` consecutive residues from a
+   start < total and visits every position (Proofs/RRConc.v cover_mod); refuted for the raw-cursor variant below. *)
+Theorem c05_rr_concurrent_complete : forall sched ts cur hl k,
+  forallb rinitial ts = true -> stable_healthy ts hl k ->
+  Forall (fun t => match t with RLook (RDone None) _ => False | _ => True end)
+         (fst (rrun rr_second_pass sched ts cur hl)).
+Proof. exact (rr_complete_of_variant rr_second_pass (eq_refl SPReduced)). Qed.
+Print Assumptions c05_rr_concurrent_complete.
+
+(* per lookup: a lookup that returns nil has itself read Health() = false of EVERY position during its own run
+   (so a host healthy throughout that lookup excludes nil, whatever happens before or after it) *)
+Theorem c05_rr_concurrent_nil_probed_all : forall sched ts cur hl, forallb rinitial ts = true ->
+  Forall (fun t => match t with
+                   | RLook (RDone None) obs => forall k, (k < length hl)%nat -> In k obs
+                   | _ => True end)
+         (fst (rrun rr_second_pass sched ts cur hl)).
+Proof. exact (rr_nil_probed_all_of_variant rr_second_pass (eq_refl SPReduced)). Qed.
+Print Assumptions c05_rr_concurrent_nil_probed_all.
+
+Theorem c05_rr_raw_second_pass_refuted : ~ rr_complete_statement SPRaw.
+Proof. exact rr_raw_refuted. Qed.
+Print Assumptions c05_rr_raw_second_pass_refuted.
+
+Example c05_rr_concurrent_example :
+  let ts := [new_lookup; new_lookup; RFlip 0 false; RBump 2] in
+  let hl := [true; false; false; false; true; false] in
+  forallb rinitial ts = true /\ stable_healthy ts hl 4 /\
+  flat_map res_of (fst (rrun rr_second_pass
+     [0;1;0;2;1;3;0;1;0;3;1;0;1;0;1;0;1;0;1;0;1;0;1;0;1;0;1;0;1;0;1;0;1;0;1;0;0;0;0;0;0;0;0;0;0;0;0;0;0;0;0;1;1;1;1;1;1;1;1;1;1;1;1]%nat ts 4294967290%N hl))
+  = [RIdx 4; RIdx 4].
+Proof. cbn zeta. split; [reflexivity|split; [split; [reflexivity|cbn; intuition discriminate]|vm_compute; reflexivity]]. Qed.
 
 (* non-vacuity: a host set with one healthy host among unhealthy ones; every policy finds it *)
 Example c05_example :
